@@ -1,5 +1,7 @@
 package roaring
 
+import "bytes"
+
 // verifHistOps, when set, maps the op choice of verifHistory to a sub-alphabet.
 var verifHistOps []int
 
@@ -14,3 +16,42 @@ func verifCycles(kind int) {
 
 func VerifH02CyclesSlice() { verifCycles(0) }
 func VerifH02CyclesBTree() { verifCycles(1) }
+
+// H04d: the encoding of a bitmap that went through a history (containers
+// emptied by removals, restructured by Optimize) decodes to the same set.
+func verifHistoryRoundTrip(kind int) {
+	var b *Bitmap
+	if kind == 0 {
+		b = NewBitmap()
+	} else {
+		b = NewBTreeBitmap()
+	}
+	s := &verifShadow{}
+	steps := verifBound("steps", 2)
+	for i := 0; i < steps; i++ {
+		x := verifHistValue()
+		switch verifChoice("op", 3) {
+		case 0:
+			s.add(x)
+			_, _ = b.Add(x)
+		case 1:
+			s.remove(x)
+			_, _ = b.Remove(x)
+		case 2:
+			b.Optimize()
+		}
+	}
+	var buf bytes.Buffer
+	_, err := b.WriteTo(&buf)
+	verifAssert(err == nil, "WriteTo: no error")
+	b2 := NewBitmap()
+	err = b2.UnmarshalBinary(buf.Bytes())
+	verifReach("history encoded and decoded")
+	verifAssert(err == nil, "the encoding of a bitmap with a history decodes")
+	if err == nil {
+		verifCheckAgainstShadow(b2, s, "decoded after history")
+	}
+}
+
+func VerifH04HistoryRoundTripSlice() { verifHistoryRoundTrip(0) }
+func VerifH04HistoryRoundTripBTree() { verifHistoryRoundTrip(1) }
